@@ -54,7 +54,7 @@ ParseTag(s, FloatOK(_)) ==
            ty == SubSeq(s, cs[1] + 1, cs[2] - 1)
            v  == SubSeq(s, cs[2] + 1, Len(s))
        IN CASE ty = TyA -> IF Len(v) = 1 THEN [ok |-> TRUE, tag |-> Tag(k, ty, v)] ELSE [ok |-> FALSE]
-            [] ty = Tyi -> IF AtoiSyntax(v) THEN [ok |-> TRUE, tag |-> Tag(k, ty, CanonInt(v))] ELSE [ok |-> FALSE]
+            [] ty = Tyi -> IF AtoiOK(v) THEN [ok |-> TRUE, tag |-> Tag(k, ty, CanonInt(v))] ELSE [ok |-> FALSE]
             [] ty = Tyf -> IF FloatOK(v) THEN [ok |-> TRUE, tag |-> Tag(k, ty, v)] ELSE [ok |-> FALSE]
             [] ty = TyZ -> [ok |-> TRUE, tag |-> Tag(k, ty, v)]
             [] ty = TyB -> [ok |-> TRUE, tag |-> Tag(k, TyZ, v)]          \* "treated like string for now"
@@ -70,7 +70,7 @@ TagsOf(parsed) ==
 
 ParseLine(fields, FloatOK(_)) ==
   IF Len(fields) < 11 THEN ERR
-  ELSE IF \E i \in IntFields : ~AtoiSyntax(fields[i]) THEN ERR
+  ELSE IF \E i \in IntFields : ~AtoiOK(fields[i]) THEN ERR
   ELSE LET parsed == [i \in 1..(Len(fields) - 11) |-> ParseTag(fields[11 + i], FloatOK)]
        IN IF \E i \in 1..Len(parsed) : ~parsed[i].ok THEN ERR
           ELSE RecItem([f |-> [i \in 1..11 |-> IF i \in IntFields THEN CanonInt(fields[i]) ELSE fields[i]],
